@@ -150,9 +150,13 @@ impl<'a> Gen<'a> {
         }
         if !self.hostile && self.rng.chance(1, 25) {
             // a long protected value (a private key, a long note): longer than any small buffer a writer might use
-            let n = *self.rng.pick(&[769usize, 1000, 3000]);
+            let n = *self.rng.pick(&[769usize, 1000, 3000, 3000, 65_537, 70_000]);
             let s: String = (0..n).map(|i| (b'a' + ((i * 7 + n) % 26) as u8) as char).collect();
             return Value::Protected(secstr::SecStr::new(s.into_bytes()));
+        }
+        if !self.hostile && self.rng.chance(1, 14) {
+            // a protected value that is blank but not empty (a PIN of one space, a tab): stored as ciphertext, it reads back
+            return Value::Protected(secstr::SecStr::new(self.rng.pick(&[" ", "\t", "  ", "\n", " \t "]).as_bytes().to_vec()));
         }
         match self.rng.below(8) {
             0 | 1 | 2 => Value::Protected(secstr::SecStr::new(self.text().into_bytes())),
